@@ -2,6 +2,7 @@
 collect obligations, discharge them with z3 (API) and cvc5 (CLI) and report."""
 from __future__ import annotations
 
+import json
 import os
 import subprocess
 import tempfile
@@ -437,12 +438,16 @@ def verify_function(model: Model, contract: Contract, timeout_ms=None, max_paths
             for nm, cf in parts:
                 split_obs.append(Obligation(nm, ob.pc, cf, ob.where, ob.kind, ob.ctx))
     all_obs = split_obs
+    only_names = os.environ.get("PYVC_ONLY_OBLIGATIONS")
+    only_names = set(json.loads(only_names)) if only_names else None
     for ob in all_obs:
+        if only_names is not None and ob.name not in only_names:
+            continue          # confirmation pass: only the named obligations are solved again
         if getattr(ob, "presolved", None):
             st, mdl, be, dt, why = ob.presolved
         elif ob.kind in ("gen-complete", "gen-distinct") and (timeout_ms or QUICK_TIMEOUT_MS) <= 30000:
             # generator-level VCs are solved in the (sequential) enumeration phase: smaller budget in the quick tier
-            st, mdl, be, dt, why = solve(ob.pc, ob.formula, 6000)
+            st, mdl, be, dt, why = solve(ob.pc, ob.formula, int(os.environ.get("PYVC_GEN_CAP_MS", "6000")))
         else:
             st, mdl, be, dt, why = solve(ob.pc, ob.formula, timeout_ms)
         ob.status, ob.model, ob.backend, ob.seconds, ob.reason = st, mdl, be, dt, why
